@@ -57,7 +57,9 @@ structure C where
   ctr       : Nat := 0                        -- `message.gPacketID`
 deriving Repr
 
-/-- `onPublish` in the client role: look up the callbacks registered for the topic and call each -/
+/-- `onPublish` in the client role: look up the callbacks registered for the topic and call each.
+The RETAIN flag is handed on as received (`sr := !p.client && msg.Retain()` is false in this
+role: only a broker clears the flag for its live fan-out, `Model.Broker.fanoutLive`). -/
 def onPublish (c : C) (p : Pub) : List Out :=
   match c.topics.subscribers p.topic p.qos with
   | none => []
